@@ -6,7 +6,7 @@ from hypothesis import strategies as st
 
 from vlib import gen, ref, obs
 from vlib import expr as E
-from vlib.build import build, apply_value, make_method
+from vlib.build import build, apply_value, apply_initial, make_method
 from vlib.core import Fail, HarnessInconclusive
 from vlib.nlp import NLP, Rows, diff_rows, close, time_like_vars, random_points, summarize_diff, DMa
 from props import c04, c05
@@ -113,7 +113,13 @@ def strategy_(draw):
     # history of value updates
     ops = []
     for _ in range(draw(st.integers(0, 5))):
-        kind = gen.weighted(draw, [("set", 5), ("query", 2), ("solve", 1), ("remethod", 2)])
+        kind = gen.weighted(draw, [("set", 5), ("query", 2), ("solve", 1), ("remethod", 2), ("guess", 1)])
+        if kind == "guess":
+            # an initial guess issued in between: must not disturb any parameter value
+            gs = [d for d in sp["controls"] + [x_ for x_ in sp["states"] if not x_.get("quad")] if d["cols"] == 1 and not (sp["method"]["cls"] == "DC" and d in sp["states"])]
+            if gs:
+                ops.append(["guess", draw(st.sampled_from(gs))["name"], draw(gen.small())])
+            continue
         if kind == "set":
             d = draw(st.sampled_from(sp["params"]))
             g = d.get("grid", "")
@@ -126,6 +132,14 @@ def strategy_(draw):
             ops.append(["set", d["name"], val])
         else:
             ops.append([kind])
+    gs_ = [d for d in sp["controls"] if d["cols"] == 1]
+    plain = [d for d in sp["params"] if not d["name"].startswith("hp_")]
+    if gs_ and plain and draw(st.integers(0, 2)) == 0:
+        # transcribe, update a parameter, then issue an unrelated initial guess: the guess must not bring old parameter values back
+        d = draw(st.sampled_from(plain))
+        g = d.get("grid", "")
+        ncol = d["cols"] * (1 if g == "" else (sp["method"]["N"] if g == "control" else sp["method"]["N"] + 1))
+        ops += [["query"], ["set", d["name"], [[draw(gen.small()) for _ in range(ncol)] for _ in range(d["rows"])]], ["guess", gs_[0]["name"], draw(gen.small())]]
     sigp = [d for d in sp["params"] if d.get("grid", "") != ""]
     if sigp and draw(st.integers(0, 2)) == 0:
         # the MPC pattern followed by a re-transcription: transcribe, update a per-interval parameter, give the method again
@@ -208,6 +222,8 @@ def stale_guess_feature(sp, ops):
     for op in ops:
         if op[0] in ("query", "solve"):
             seen_q = True
+        elif op[0] == "guess":
+            pass
         elif op[0] == "remethod":
             seen_q = stale = False      # the next transcription evaluates every guess anew
         elif seen_q and op[1] in deps:
@@ -218,6 +234,8 @@ def stale_guess_feature(sp, ops):
 def final_values(sp, ops):
     sp2 = copy.deepcopy(sp)
     for op in ops:
+        if op[0] == "guess":
+            sp2["initial"] = [it for it in sp2.get("initial", []) if it[0] != op[1]] + [[op[1], ["num", op[2]]]]
         if op[0] == "set":
             for d in sp2["params"]:
                 if d["name"] == op[1]:
@@ -246,6 +264,8 @@ def check(case, ctx):
             apply_value(B, ocp, op[1], op[2])
         elif op[0] == "query":
             ocp.sample(B.syms[sp["states"][0]["name"]], grid="control")
+        elif op[0] == "guess":
+            apply_initial(B, ocp, [op[1], ["num", op[2]]])
         elif op[0] == "remethod":
             # the same method given again: the next query transcribes anew and must see the values set so far
             ocp.method(make_method(sp["method"]))
